@@ -97,7 +97,7 @@ func init() {
 		Gen: func(r *rand.Rand, tier string) Case {
 			if chance(r, 0.02) {
 				regN++
-				name := pick(r, []string{"gcustom", "gshadow", "le", "to", "unique", "email", "in", "int", "ge", "phone"})
+				name := pick(r, []string{"gcustom", "gshadow", "le", "to", "unique", "email", "in", "int", "ge", "phone", "to2", "Required", "lcustom", "nosuch"}) // the last four: names that rules used (as unknown ones) before anybody registered them
 				mk := "R" + strconv.Itoa(regN)
 				valid.SetCustomerValidFn(name, markerFn(mk))
 				globalFns[name] = mk
